@@ -821,7 +821,29 @@ pub fn run_job_real(job: &RealJob) -> Outcome {
     let root_rel_owned = if with_dir { format!("{}/{}", job.bases[0], job.root_rel) } else { job.root_rel.to_string() };
     let job_root_rel: &str = &root_rel_owned;
     let res = catch_unwind(AssertUnwindSafe(|| {
+        // the other constructors: `for_cwd()` / `for_crate()` with the root read by the caller - when the
+        // root is opened from inside its directory, every other time (decided by the root's name length
+        // plus the number of bases, i.e. by the case, not by a draw)
+        let plain_ctor = !with_dir && (job.root_rel.len() + job.bases.len()) % 2 == 0 && !job.root_rel.contains('/');
+        let read_root = |name: &str| -> Result<SourceFile, rsass::Error> {
+            let mut f = rsass_verif_fs::File::open(name).map_err(|e| LoadError::Input(name.to_string(), e))?;
+            Ok(SourceFile::read(&mut f, SourceName::root(job.root_rel))?)
+        };
         let r: Result<Vec<u8>, rsass::Error> = match job.via {
+            Via::Fs | Via::Stub if plain_ctor => read_root(job.root_rel).and_then(|file| {
+                let mut loader = FsLoader::for_cwd();
+                for b in &job.bases[1..] {
+                    loader.push_path(format!("{up}{b}").as_ref());
+                }
+                Context::for_loader(Recording { inner: loader, st: st.clone() }).with_format(job.fmt.format()).transform(file)
+            }),
+            Via::Cargo if plain_ctor => CargoLoader::for_crate().map_err(rsass::Error::from).and_then(|mut loader| {
+                for b in &job.bases[1..] {
+                    loader.push_path(format!("{up}{b}").as_ref()).map_err(rsass::Error::from)?;
+                }
+                let file = read_root(&format!("{SIMROOT}/{cwd}/{}", job.root_rel))?;
+                Context::for_loader(Recording { inner: loader, st: st.clone() }).with_format(job.fmt.format()).transform(file)
+            }),
             Via::Fs | Via::Stub => FsLoader::for_path(std::path::Path::new(job_root_rel)).map_err(rsass::Error::from).and_then(
                 |(mut loader, file)| {
                     for b in &job.bases[1..] {
